@@ -299,11 +299,34 @@ func (fr *Frame) reachCheck(st *State, ins ssa.Instruction, gc *FuncContract) {
 	// gates keyed by callee ("call:Name"): every call instruction whose callee
 	// has that (unqualified) name, wherever it occurs; _c0, _c1, ... denote the
 	// arguments (the receiver of a method call is _c0)
-	callKey := ""
+	callKey, callKeyQ := "", ""
 	var callArgs []ssa.Value
 	if ci, ok := ins.(ssa.CallInstruction); ok {
 		if n := lastCallName(ci.Common()); n != "" {
 			callKey = "call:" + n
+			// qualified form: call:pkg.Func, call:Type.Method (receiver type name
+			// without package and pointer)
+			cc0 := ci.Common()
+			if cc0.IsInvoke() {
+				if nt, ok := cc0.Value.Type().(*types.Named); ok {
+					callKeyQ = "call:" + nt.Obj().Name() + "." + n
+				}
+			} else if sf := cc0.StaticCallee(); sf != nil {
+				if o := sf.Origin(); o != nil {
+					sf = o // instance of a generic function
+				}
+				if recv := sf.Signature.Recv(); recv != nil {
+					rt := recv.Type()
+					if pt, ok := rt.(*types.Pointer); ok {
+						rt = pt.Elem()
+					}
+					if nt, ok := rt.(*types.Named); ok {
+						callKeyQ = "call:" + nt.Obj().Name() + "." + n
+					}
+				} else if sf.Pkg != nil {
+					callKeyQ = "call:" + sf.Pkg.Pkg.Name() + "." + n
+				}
+			}
 			cc := ci.Common()
 			if cc.IsInvoke() {
 				callArgs = append(callArgs, cc.Value)
@@ -311,6 +334,7 @@ func (fr *Frame) reachCheck(st *State, ins ssa.Instruction, gc *FuncContract) {
 			callArgs = append(callArgs, cc.Args...)
 		}
 	}
+	_ = callKeyQ
 	if txt == "" && callKey == "" {
 		return
 	}
@@ -323,7 +347,7 @@ func (fr *Frame) reachCheck(st *State, ins ssa.Instruction, gc *FuncContract) {
 	for _, rc := range gc.Reach {
 		isCallGate := strings.HasPrefix(rc.Stmt, "call:")
 		if isCallGate {
-			if rc.Stmt != callKey {
+			if rc.Stmt != callKey && rc.Stmt != callKeyQ {
 				continue
 			}
 		} else {
